@@ -1,5 +1,6 @@
 import Driver.Util
 import Amqp.Model.Deliver
+import Amqp.Model.ConsumeLoop
 open Amqp Amqp.Deliver
 namespace Driver.C03
 
@@ -61,6 +62,67 @@ def stepCmd (s : S) : List String → Option (S × String)
       let r := routeAll us
       let inb := if r.inbound.isEmpty then "-" else ",".intercalate (r.inbound.map showCF)
       some (s, s!"inbound={inb} errors={if r.errors.isEmpty then "-" else ",".intercalate (r.errors.map toString)} claimed={r.claimed.length} handled={r.handled.length} pending={r.returnedLeft.isSome}")
+  | ["c03.loop", tags, acts] =>
+    -- the consuming loop (program regenerated from the source) against a script of reader/consumer actions
+    let parseAct (x : String) : Option Amqp.ConsumeLoop.Act :=
+      if x = "c" then some .consumer else if x = "x" then some .cancel else if x = "a" then some .add
+      else if x.startsWith "d" then (x.drop 1).toNat?.map .deliver else none
+    match Amqp.ConsumeLoop.program, tags.toNat?, (if acts = "-" then some [] else (acts.splitOn ",").mapM parseAct) with
+    | none, _, _ => some (s, "no-program")
+    | some p, some n, some as =>
+      let rec go (st : Amqp.ConsumeLoop.S) (i : Nat) : List Amqp.ConsumeLoop.Act → String
+        | [] =>
+          let csv (l : List Nat) := if l.isEmpty then "-" else ",".intercalate (l.map toString)
+          s!"done={if st.done then 1 else 0} handed={csv st.handed} inbound={csv st.inbound} tags={st.tags}"
+        | a :: rest => match Amqp.ConsumeLoop.step st a with
+          | none => s!"rejected@{i}"
+          | some st' => go st' (i + 1) rest
+      some (s, go (Amqp.ConsumeLoop.init p n) 0 as)
+    | _, _, _ => some (s, "bad-op")
+  | ["c03.loopev", tags, toks] =>
+    -- as c03.loop, but the consuming thread is driven by its observable events: `R` = it runs up to and including
+    -- its next look at the consumer tags, `D` = … its next drain, `E` = it runs until start_consuming returns
+    -- (steps that touch no shared state are taken on the way); any other visible step on the way is an `order@i` error
+    match Amqp.ConsumeLoop.program, tags.toNat? with
+    | some p, some n =>
+      let nextOp (st : Amqp.ConsumeLoop.S) : Option Amqp.ConsumeLoop.Op := st.prog[st.pc]?
+      -- advance the consumer until it has executed `target` (none = until done); fuel bounds the silent steps
+      let rec adv (fuel : Nat) (st : Amqp.ConsumeLoop.S) (target : Option Amqp.ConsumeLoop.Op) : Except String Amqp.ConsumeLoop.S :=
+        match fuel with
+        | 0 => .error "stuck"
+        | fuel + 1 =>
+          if st.done then (if target.isNone then .ok st else .error "returned-early")
+          else
+            let op := nextOp st
+            let visible := op == some .read || op == some .drain
+            if visible && op != target then .error "order"
+            else match Amqp.ConsumeLoop.step st .consumer with
+              | none => .error "stuck"
+              | some st' => if visible then .ok st' else adv fuel st' target
+      let rec goEv (st : Amqp.ConsumeLoop.S) (i : Nat) : List String → String
+        | [] =>
+          let csv (l : List Nat) := if l.isEmpty then "-" else ",".intercalate (l.map toString)
+          s!"done={if st.done then 1 else 0} handed={csv st.handed} inbound={csv st.inbound} tags={st.tags}"
+        | t :: rest =>
+          let r : Except String Amqp.ConsumeLoop.S :=
+            if t = "R" then adv 16 st (some .read)
+            else if t = "D" then adv 16 st (some .drain)
+            else if t = "E" then adv 16 st none
+            else
+              let a? : Option Amqp.ConsumeLoop.Act :=
+                if t = "x" then some .cancel else if t = "a" then some .add
+                else if t.startsWith "d" then (t.drop 1).toNat?.map .deliver else none
+              match a? with
+              | none => .error "bad-op"
+              | some a => match Amqp.ConsumeLoop.step st a with
+                | none => .error "rejected"
+                | some st' => .ok st'
+          match r with
+          | .ok st' => goEv st' (i + 1) rest
+          | .error e => s!"{e}@{i}"
+      some (s, goEv (Amqp.ConsumeLoop.init p n) 0 (if toks = "-" then [] else toks.splitOn ","))
+    | none, _ => some (s, "no-program")
+    | _, _ => some (s, "bad-op")
   | _ => none
 
 end Driver.C03
